@@ -867,7 +867,13 @@ def rule_r15(prog, res) -> None:
         if name == "logspace":
             logs = [c for c in calls_in(m) if (dotted(c.func) or "").split(".")[-1] in ("log", "log1p")]
             fwd_ok = bool(logs) and all(((dotted(c.func) or "").endswith("log1p")) or all(isinstance(y, ast.BinOp) and isinstance(y.op, ast.Add) and any(isinstance(z, ast.Constant) and z.value == 1 for z in (y.left, y.right)) for y in (c.args[0].elts if isinstance(c.args[0], (ast.List, ast.Tuple)) else [c.args[0]])) for c in logs)
-            back = [x for x in walk_no_nested(m.node) if isinstance(x, ast.BinOp) and isinstance(x.op, (ast.Sub, ast.Add)) and isinstance(x.right, ast.Constant) and x.right.value == 1 and any(isinstance(y, ast.Call) and (dotted(y.func) or "").split(".")[-1] in ("logspace", "exp", "expm1") for y in ast.walk(x.left))]
+            # (on the symbolic store: the exponentiated grid may travel through locals / helpers before the 1 is taken off)
+            exprs_ = []
+            for p_ in symx.explore(prog, m, inline=symx.inline_private_helpers(prog)):
+                exprs_ += [p_.value] if p_.value is not None else []
+                exprs_ += [a for ev in p_.calls() for a in [*ev.expr.args, *[k.value for k in ev.expr.keywords]]]
+                exprs_ += [ev.value for ev in p_.events if ev.kind == "store" and ev.value is not None]
+            back = [x for e_ in exprs_ for x in ast.walk(e_) if isinstance(x, ast.BinOp) and isinstance(x.op, (ast.Sub, ast.Add)) and isinstance(x.right, ast.Constant) and x.right.value == 1 and any(isinstance(y, ast.Call) and (dotted(y.func) or "").split(".")[-1] in ("logspace", "exp", "expm1") for y in ast.walk(x.left))]
             back_ok = any(isinstance(x.op, ast.Sub) for x in back) and not any(isinstance(x.op, ast.Add) for x in back) or any((dotted(c.func) or "").endswith("expm1") for c in calls_in(m))
             n += 1
             if fwd_ok and back_ok:
@@ -928,6 +934,11 @@ def rule_r15(prog, res) -> None:
         res.touch(gm)
         kw = gm.node.args.kwarg.arg if gm.node.args.kwarg else None
         merges = [c for c in calls_in(gm) if isinstance(c.func, ast.Attribute) and c.func.attr == "update" and kw and any(isinstance(y, ast.Name) and y.id == kw for y in ast.walk(c))]
+        # the loop form: for key, value in kwargs.items(): [if value is not NotSet:] conf_dict[key] = value
+        for lp in [x for x in walk_no_nested(gm.node) if isinstance(x, ast.For) and kw and any(isinstance(y, ast.Name) and y.id == kw for y in ast.walk(x.iter))]:
+            tg = {y.id for y in ast.walk(lp.target) if isinstance(y, ast.Name)}
+            if any(isinstance(y, ast.Assign) and isinstance(y.targets[0], ast.Subscript) and any(isinstance(z, ast.Name) and z.id in tg for z in ast.walk(y.value)) for y in ast.walk(lp)):
+                merges.append(lp)
         merges += [x for x in walk_no_nested(gm.node) if isinstance(x, ast.BinOp) and isinstance(x.op, ast.BitOr) and kw and any(isinstance(y, ast.Name) and y.id == kw for y in ast.walk(x))]
         merges += [x for x in walk_no_nested(gm.node) if isinstance(x, ast.Dict) and any(k is None for k in x.keys) and kw and any(isinstance(y, ast.Name) and y.id == kw for y in ast.walk(x))]
         n += 1
@@ -935,6 +946,13 @@ def rule_r15(prog, res) -> None:
             res.violation("C15.R15", gm, gm.node, "the generic modify() does not merge the given keywords into the dictionary it rebuilds the configuration from: every modification is silently ignored", key_extra="generic-modify-ignores-kwargs")
         else:
             filt = [cnd for mg in merges for y in ast.walk(mg) if isinstance(y, (ast.DictComp, ast.GeneratorExp, ast.ListComp)) for g in y.generators for cnd in g.ifs]
+            for mg in merges:
+                if isinstance(mg, ast.For):
+                    for y in ast.walk(mg):
+                        if isinstance(y, ast.If) and "NotSet" in unparse(y.test):
+                            stores_in_body = any(isinstance(z, ast.Assign) and isinstance(z.targets[0], ast.Subscript) for s_ in y.body for z in ast.walk(s_))
+                            skips_in_body = any(isinstance(z, ast.Continue) for s_ in y.body for z in ast.walk(s_))
+                            filt.append(y.test if stores_in_body else ast.UnaryOp(op=ast.Not(), operand=y.test) if skips_in_body else y.test)
             bad = None
             for cnd in filt:
                 vn = next((y.id for y in ast.walk(cnd) if isinstance(y, ast.Name) and y.id not in ("NotSet",)), None)
@@ -951,8 +969,8 @@ def rule_r15(prog, res) -> None:
                 res.violation("C15.R15", gm, bad, f"the generic modify() keeps a keyword when `{unparse(bad)}`: given values are dropped and the NotSet placeholders are merged into the configuration", key_extra="generic-modify-filter")
             else:
                 res.ok("C15.R15", res.site(gm), "the given (not NotSet) keywords are merged into the dictionary handed to from_dict")
-    if n < 12:
-        raise AnalysisError(f"C15.R15: only {n} facts folded, minimum 12")
+    if n < 10:
+        raise AnalysisError(f"C15.R15: only {n} facts folded, minimum 10")
 
 
 RULES = [
